@@ -31,8 +31,15 @@ package cctp
 //@ ensures[C17.init.tokenPairs] forall j: int :: 0 <= j && j < len(genState.TokenPairList) ==> st.tokenPairs.has[genState.TokenPairList[j].RemoteDomain][genState.TokenPairList[j].RemoteToken]
 //@ ensures[C17.init.usedNonces] forall j: int :: 0 <= j && j < len(genState.UsedNoncesList) ==> st.usedNonces.has[genState.UsedNoncesList[j].SourceDomain][genState.UsedNoncesList[j].Nonce]
 //@ ensures[C17.init.messengers] forall j: int :: 0 <= j && j < len(genState.TokenMessengerList) ==> st.messengers.has[genState.TokenMessengerList[j].DomainId]
-//@ loop 0 invariant[attesters]  rangeindex >= -1 && rangeindex < len(genState.AttesterList) && forall j: int :: 0 <= j && j <= rangeindex ==> st.attesters.has[genState.AttesterList[j].Attester]
-//@ loop 1 invariant[limits]     rangeindex >= -1 && rangeindex < len(genState.PerMessageBurnLimitList) && forall j: int :: 0 <= j && j <= rangeindex ==> st.burnLimits.has[genState.PerMessageBurnLimitList[j].Denom]
-//@ loop 2 invariant[tokenPairs] rangeindex >= -1 && rangeindex < len(genState.TokenPairList) && forall j: int :: 0 <= j && j <= rangeindex ==> st.tokenPairs.has[genState.TokenPairList[j].RemoteDomain][genState.TokenPairList[j].RemoteToken]
-//@ loop 3 invariant[usedNonces] rangeindex >= -1 && rangeindex < len(genState.UsedNoncesList) && forall j: int :: 0 <= j && j <= rangeindex ==> st.usedNonces.has[genState.UsedNoncesList[j].SourceDomain][genState.UsedNoncesList[j].Nonce]
-//@ loop 4 invariant[messengers] rangeindex >= -1 && rangeindex < len(genState.TokenMessengerList) && forall j: int :: 0 <= j && j <= rangeindex ==> st.messengers.has[genState.TokenMessengerList[j].DomainId]
+// Loops are named by the list they run over, so reordering them does not move their invariants;
+// loopidx is the number of elements a loop has finished (range or index loop alike).
+//@ loop 0 over AttesterList
+//@ loop 1 over PerMessageBurnLimitList
+//@ loop 2 over TokenPairList
+//@ loop 3 over UsedNoncesList
+//@ loop 4 over TokenMessengerList
+//@ loop 0 invariant[attesters]  loopidx >= 0 && loopidx <= len(genState.AttesterList) && forall j: int :: 0 <= j && j < loopidx ==> st.attesters.has[genState.AttesterList[j].Attester]
+//@ loop 1 invariant[limits]     loopidx >= 0 && loopidx <= len(genState.PerMessageBurnLimitList) && forall j: int :: 0 <= j && j < loopidx ==> st.burnLimits.has[genState.PerMessageBurnLimitList[j].Denom]
+//@ loop 2 invariant[tokenPairs] loopidx >= 0 && loopidx <= len(genState.TokenPairList) && forall j: int :: 0 <= j && j < loopidx ==> st.tokenPairs.has[genState.TokenPairList[j].RemoteDomain][genState.TokenPairList[j].RemoteToken]
+//@ loop 3 invariant[usedNonces] loopidx >= 0 && loopidx <= len(genState.UsedNoncesList) && forall j: int :: 0 <= j && j < loopidx ==> st.usedNonces.has[genState.UsedNoncesList[j].SourceDomain][genState.UsedNoncesList[j].Nonce]
+//@ loop 4 invariant[messengers] loopidx >= 0 && loopidx <= len(genState.TokenMessengerList) && forall j: int :: 0 <= j && j < loopidx ==> st.messengers.has[genState.TokenMessengerList[j].DomainId]
